@@ -28,8 +28,8 @@ class CollProperty:
                 sc["cons"].append(dict(id=wid * 10 + 3, src=wid, every=1))
             if with_lazy and rng.random() < 0.6:
                 sc["cons"].append(dict(id=wid * 10 + 4, src=wid, every=rng.choice((2, 3))))
-            # (a window below a dictionary loses its early pushes in capture_delta: finding F12, owned by C20 - no mirror here)
-            if with_mirror or (rng.random() < 0.3 and shape != "TSDW"):
+            # (a window below a dictionary or bundle loses its early pushes in capture_delta: finding F12, owned by C20 - no mirror here)
+            if with_mirror or (rng.random() < 0.3 and not oc.window_below(coll.SHAPES[shape])):
                 sc["mirrors"].append(dict(id=wid * 10 + 5, src=wid))
                 sc["cons"].append(dict(id=wid * 10 + 6, src=wid * 10 + 5, every=1))
             wid += 1
